@@ -502,6 +502,11 @@ class PVLEncoder(object):
         if s in self.grammar.reserved_keywords:
             return True
 
+        if s.endswith("-"):
+            # At the end of a line, a trailing dash would be taken for a
+            # line continuation by ISIS, and by the permissive OmniParser.
+            return True
+
         tok = Token(s, grammar=self.grammar, decoder=self.decoder)
         if not tok.is_unquoted_string():
             return True
